@@ -49,12 +49,14 @@ func runMulti(c *Case) *Result {
 		conns[i].cond.Broadcast()
 		conns[i].mu.Unlock()
 	}
+	released := false
 	wait := func(i int) {
 		// wait until the server has consumed everything and blocks again (or closed)
 		deadline := time.Now().Add(hangTimeout())
 		for {
 			conns[i].mu.Lock()
-			idle := (conns[i].waiting && len(conns[i].segs) == 0 && len(conns[i].cur) == 0) || conns[i].closed
+			idle := (conns[i].waiting && len(conns[i].segs) == 0 && len(conns[i].cur) == 0) || conns[i].closed ||
+				(!released && sessions[i].holding.Load() && len(conns[i].segs) == 0) // parked in a held validator
 			closed := conns[i].closed
 			conns[i].mu.Unlock()
 			if idle {
@@ -77,6 +79,9 @@ func runMulti(c *Case) *Result {
 		conns[i] = NewConn(nil, false, -1)
 		conns[i].name = "client" + strconv.Itoa(i)
 		byAddr.Store(conns[i].name, sessions[i])
+		if c.Extra["hold"] == "1" {
+			sessions[i].holdCh = make(chan struct{})
+		}
 	}
 	if c.Extra["sched"] == "par" {
 		var wg sync.WaitGroup
@@ -126,6 +131,16 @@ func runMulti(c *Case) *Result {
 					}
 					time.Sleep(30 * time.Microsecond)
 				}
+			}
+		}
+		if c.Extra["hold"] == "1" {
+			// every connection has had its turn while the held validators were busy: let them answer
+			released = true
+			for i := 0; i < k; i++ {
+				close(sessions[i].holdCh)
+			}
+			for i := 0; i < k; i++ {
+				wait(i)
 			}
 		}
 		for i := 0; i < k; i++ {
